@@ -117,6 +117,10 @@ class Gen:
                 return shp
 
     def rand_dtype(self, kinds: str = "biufc") -> str:
+        if self.nan and kinds != "c":
+            # complex arithmetic on inf/NaN differs between C99 Annex G and NumPy and is
+            # not part of the NaN-aware fragment
+            kinds = kinds.replace("c", "") or kinds
         cands = [d for d in DT6 if np.dtype(d).kind in kinds]
         w = {"bool": 0.6, "int32": 1, "int64": 1, "float32": 1.2, "float64": 2.5,
              "complex128": 0.8}
@@ -304,8 +308,14 @@ class Gen:
         # scalar operand
         k = self.dtype(x).kind
         skind = {"b": "bool", "i": "int", "f": "float", "c": "complex"}[k]
+        if skind == "bool" and self.rng.random() < 0.8:
+            skind = "int"          # bool scalars stay in scope, at low frequency
         if op in ("and", "or", "xor"):
-            skind = self.rng.choice(["bool", "int"]) if k == "i" else "bool"
+            skind = "int" if (k == "i" and self.rng.random() < 0.85) else \
+                ("bool" if self.rng.random() < 0.3 else "int")
+            if k == "b" and skind == "int":
+                # bool array with int scalar is fine for NumPy (promotes)
+                pass
         elif self.rng.random() < 0.3 and op not in ("floordiv", "mod"):
             skind = self.rng.choice(["int", "float"]) if k != "c" else "complex"
         if op in ("floordiv", "mod") and skind == "float" and not self.allow_float_divmod:
@@ -342,7 +352,10 @@ class Gen:
                 raise Reject("partner")
             return self.add(op, [x, y])
         k = self.dtype(x).kind
-        sc = self.rand_scalar({"b": "bool", "i": "int", "f": "float", "c": "complex"}[k])
+        sk = {"b": "bool", "i": "int", "f": "float", "c": "complex"}[k]
+        if sk == "bool" and self.rng.random() < 0.8:
+            sk = "int"
+        sc = self.rand_scalar(sk)
         return self.add(op, [x, sc] if self.rng.random() < 0.7 else [sc, x])
 
     def f_logical(self) -> int:
@@ -469,6 +482,11 @@ class Gen:
     def f_reduce(self) -> int:
         op = self.rng.choices(["sum", "prod", "amax", "amin", "all", "any"],
                               [4, 1.2, 1.5, 1.5, 0.7, 0.7])[0]
+        if self.nan and op in ("prod", "amax", "amin"):
+            # NaN-aware fragment = elementwise arithmetic, comparisons, where,
+            # maximum/minimum, isnan, sums (pytato promises NaN propagation only for
+            # maximum/minimum; C fmax/fmin drop NaNs in reductions)
+            op = "sum"
         kinds = {"sum": "biufc", "prod": "iufc", "amax": "if", "amin": "if",
                  "all": "bif", "any": "bif"}[op]
         x = self.pick_or_new(lambda i: self.dtype(i).kind in kinds and self.v(i).ndim >= 1,
